@@ -303,6 +303,12 @@ func (fv *FuncVC) primitive(keys []string, c *ssa.CallCommon, args []*Val, resT 
 		"sync.RWMutex.TryRLock", "sync.RWMutex.TryLock", "sync.Mutex.TryLock":
 		id := fv.lockID(args[0])
 		fv.noteLockID(id)
+		if cl := fv.g.lockClassOf(c.Args[0]); cl != "" {
+			if fv.lockClass == nil {
+				fv.lockClass = map[string]string{}
+			}
+			fv.lockClass[id] = cl
+		}
 		h := fv.heapGet("LOCK", "(Array Int Int)")
 		held := "(select " + h + " " + id + ")"
 		op := key[strings.LastIndex(key, ".")+1:]
@@ -314,15 +320,17 @@ func (fv *FuncVC) primitive(keys []string, c *ssa.CallCommon, args []*Val, resT 
 			fv.assume("(= " + held + " 0)") // likewise: Lock returns only to a thread that did not hold the mutex
 			fv.heapSet("LOCK", "(Array Int Int)", "(store "+h+" "+id+" (- 1))")
 			fv.onAcquire(args[0], id, true)
+			fv.snapshotAtAcquire(c.Args[0])
 		case "Unlock":
 			fv.oblige("lock", fmt.Sprintf("unlock-held#%d", n), props, "(= "+held+" (- 1))", "Unlock() of a mutex not write-held by this thread", fv.posStr(pos))
 			fv.heapSet("LOCK", "(Array Int Int)", "(store "+h+" "+id+" 0)")
 		case "RLock":
-			fv.oblige("lock", fmt.Sprintf("no-self-deadlock#%d", n), props, "(>= "+held+" 0)", "RLock() while this thread write-holds the mutex", fv.posStr(pos))
+			fv.oblige("lock", fmt.Sprintf("no-self-deadlock#%d", n), props, "(= "+held+" 0)", "RLock() while this thread already holds the mutex (write-held: self-deadlock; read-held: recursive read locking deadlocks behind a queued writer)", fv.posStr(pos))
 			// a thread that write-holds the mutex never returns from RLock: execution continues only with held >= 0
 			fv.assume("(>= " + held + " 0)")
 			fv.heapSet("LOCK", "(Array Int Int)", "(store "+h+" "+id+" (+ "+held+" 1))")
 			fv.onAcquire(args[0], id, false)
+			fv.snapshotAtAcquire(c.Args[0])
 		case "RUnlock":
 			fv.oblige("lock", fmt.Sprintf("runlock-held#%d", n), props, "(> "+held+" 0)", "RUnlock() of a mutex not read-held by this thread", fv.posStr(pos))
 			fv.heapSet("LOCK", "(Array Int Int)", "(store "+h+" "+id+" (- "+held+" 1))")
